@@ -1,8 +1,6 @@
 (* C12 — URL <-> LRU conversion and serialization.  Statements only.  Proved: lru_to_url rebuilds
-   exactly the url (urlunsplit of the parsed components) whose stems it is given, for every parsed url (userinfo included)
-   with an ordinary host, modulo the computed behaviour of the port splitter regex; the serialization
-   shape; the structural pins of the two splitter regexes read from the source.  PARTIAL: special hosts,
-   suffix-aware stems and the serialized (string) form are decided by the harness (re-parsing the implementation's
+   exactly the url (urlunsplit of the parsed components) whose stems it is given, for every parsed url (userinfo and special hosts included), modulo the computed behaviour of the port splitter regex; the serialization
+   shape; the structural pins of the two splitter regexes read from the source.  PARTIAL: suffix-aware stems and the serialized (string) form are decided by the harness (re-parsing the implementation's
    output) and by model-vs-implementation correspondence. *)
 From Coq Require Import String.
 From Coq Require Import List NArith.
@@ -40,7 +38,8 @@ Example C12_round_trips :
 Proof. vm_compute. repeat split. Qed.
 
 (* lru_to_url rebuilds the url its stems came from: for every parsed url -- userinfo included (user, user:password,
-   empty password, '@' inside the user) -- whose host is not a special host, whatever the suffix trie, provided
+   empty password, '@' inside the user) -- and every host (ordinary, or special: IPv4 / bracketed IPv6 / localhost),
+   whatever the suffix trie, provided
    the port splitter cuts the host part of the netloc into a host and an optional port that re-join to it (what
    PORT_SPLITTER does on a given string is a computation; the regex is pinned above and exercised against CPython).
    The path is absolute or empty, as urlsplit produces it. *)
@@ -49,7 +48,6 @@ Theorem C12_stems_round_trip : forall (t : snode) (r : SplitResult) (ou ow : opt
   re_split PORT_SPLITTER_f PORT_SPLITTER PORT_SPLITTER_g hp None
     = Some host :: (match oport with Some p => [Some p] | None => [] end) ->
   hp = host ++ (match oport with Some p => 58%N :: p | None => [] end) ->
-  is_special_host host = false ->
   (path r = [] \/ exists p, path r = 47%N :: p) ->
   lru_to_url_stems (lru_stems_from_parsed t r false) = Ok (urlunsplit r).
 Proof. exact stems_round_trip. Qed.
